@@ -255,6 +255,8 @@ pub(crate) enum ExprErrorKind {
     UnexpectedValueForSignal(String, OutputValue),
     #[error("Division by zero")]
     DivisionByZero,
+    #[error("random({0}): the range of possible values is empty")]
+    EmptyRandomRange(i64),
 }
 
 /// Could not construct static iterator
